@@ -516,6 +516,25 @@ def _bexpr(ctx, se, t, depth=0):
         for w, tag in (("to_le_bytes", "le"), ("to_be_bytes", "be")):
             if name.startswith("core::num::<impl ") and name.endswith("::" + w):
                 return (tag, name[len("core::num::<impl "):].split(">")[0], bexpr(ctx, se, t[2][0], depth + 1))
+        if name == "std::array::<impl [T; N]>::map" and len(t[2]) == 2:
+            # [a, b, c].map(f): the array of f(a), f(b), f(c)
+            base, f = strip(t[2][0]), strip(t[2][1])
+            if base[0] == "agg" and base[1] == "array":
+                out = []
+                for e in base[4]:
+                    if f[0] == "fn":
+                        v = ("call", f[1], (e,), t[3] if len(t) > 3 else ("?", -1))
+                    else:
+                        v = closure_value(ctx, f, (e,))
+                    if v is None:
+                        return ("raw", "array::map with " + show(f, maxdepth=2))
+                    out.append(bexpr(ctx, se, strip(v), depth + 1))
+                return ("arr", tuple(out))
+        if name in ("core::slice::<impl [[T; N]]>::as_flattened", "core::slice::<impl [[T; N]]>::as_flattened_mut") and len(t[2]) == 1:
+            inner = bexpr(ctx, se, strip(t[2][0]), depth + 1)
+            if inner[0] == "arr":
+                return ("cat", tuple(inner[1]))
+            return ("raw", "as_flattened of " + show(t[2][0], maxdepth=2))
         d = parse_digest(ctx, se, t, depth + 1)
         if d is not None:
             return d
@@ -580,6 +599,39 @@ def feeder(ctx, fn):
     return _FEEDER[key]
 
 
+def _fold_feeds(ctx, se, h):
+    """the elements of a constant array folded into a digest / MAC state, in order, when the
+    term is `array.iter().fold(state, |st, part| st.chain_update(part))` (or `update` on the
+    state and returning it); else None"""
+    it = strip(h[2][0])
+    if it[0] == "mutref" and len(h) > 3:
+        o = se.call_old.get((h[3][:2], 0)) if se is not None else None
+        it = strip(o) if o is not None else it
+    while is_call(it) and (it[1] in IDENT_CALLS or it[1].endswith("into_iter") or it[1] in ("core::slice::<impl [T]>::iter", "std::iter::Iterator::copied", "std::iter::Iterator::cloned", "std::array::<impl [T; N]>::iter")) and len(it[2]) == 1:
+        it = strip(it[2][0])
+    if not (it[0] == "agg" and it[1] == "array"):
+        return None
+    cl = strip(h[2][2])
+    ST, PART = ("fold-state",), ("fold-part",)
+    v = closure_value(ctx, cl, (ST, PART))
+    if v is None:
+        return None
+    v = strip(v)
+    if not (is_call(v) and v[1] in CHAIN_UPDATE + MAC_CHAIN and len(v[2]) == 2 and strip(v[2][0]) == ST):
+        return None
+    a = strip(v[2][1])
+    while a[0] in ("deref", "ref", "refv") or (is_call(a) and a[1] in IDENT_CALLS and len(a[2]) == 1):
+        a = strip(a[1] if a[0] in ("deref", "ref", "refv") else a[2][0])
+    if a != PART:
+        return None
+    elems = list(it[4])
+    if se is not None and len(h) > 3:
+        # `[&hash, key.as_le_bytes(), ..]`: references to locals of the function are read where
+        # the fold runs
+        elems = [canon(ctx, se, resolve_locals(se, h[3][1], e)) for e in elems]
+    return elems
+
+
 def parse_digest(ctx, se, t, depth=0):
     """SHA-1 / HMAC-SHA1 / MD5 transcript of a finalisation term, or None"""
     name = t[1]
@@ -597,6 +649,14 @@ def parse_digest(ctx, se, t, depth=0):
             elif is_call(h) and h[1] in MAC_CHAIN:
                 inputs.append(h[2][1])
                 h = h[2][0]
+            elif is_call(h) and h[1].endswith("::fold") and "Iterator" in h[1] and len(h[2]) == 3 and _fold_feeds(ctx, se, h) is not None:
+                # parts.iter().fold(state, |st, part| st.chain_update(part)): the parts in order
+                inputs.extend(reversed(_fold_feeds(ctx, se, h)))
+                h = strip(h[2][1])
+            elif is_call(h) and h[1] == "<D as digest::Digest>::new_with_prefix" and len(h[2]) == 1:
+                # new_with_prefix(x) = new().chain_update(x)
+                inputs.append(h[2][0])
+                h = ("call", DIGEST_NEW[0], (), h[3] if len(h) > 3 else ("?", -1))
             elif h[0] == "after" and is_call(h[1]) and h[1][1] in ctx.fb.bodies and feeder(ctx, h[1][1]) is not None and h[2] == feeder(ctx, h[1][1])[2] - 1:
                 # the state handed to a crate function that feeds it one of its arguments
                 kind, dpar, mpar = feeder(ctx, h[1][1])
@@ -1393,17 +1453,77 @@ def clone_verdict(ctx, adt):
             why = "hand-written Clone copies every field to its own place" if good else "hand-written Clone gives field %s the value %s" % (fb.adt_fields(adt)[bad[0][0]]["name"], bad[0][1])
             if good:
                 break
+    if good:
+        # an overridden `clone_from` is a second way to copy: afterwards *self must be the source,
+        # field for field
+        cf = name[:-len("clone")] + "clone_from"
+        if cf in fb.bodies and not fb.bodies[cf].derived():
+            ok_cf, why_cf = _clone_from_faithful(ctx, adt, cf, nf)
+            if not ok_cf:
+                good, why = False, "clone_from: " + why_cf
+            else:
+                why += "; clone_from leaves every field equal to the source's"
     cache[adt] = (name, b, good, why)
     return cache[adt]
 
 
+def _clone_from_faithful(ctx, adt, cf, nf):
+    fb = ctx.fb
+    for eng in ("wrap", "deep"):
+        se = getattr(ctx, eng).run(cf)
+        if se is None:
+            continue
+        eff = se.param_effects().get(1)
+        if eff is None:
+            return False, "does not write *self"
+        t = strip(eff)
+        vals = {}
+        while t[0] == "upd" and t[2][0] == "f":
+            vals.setdefault(t[2][1], t[3])
+            t = strip(t[1])
+        whole = _eta(fb, t)
+        if whole in (("param", 2), ("deref", ("param", 2))):
+            base_ok = True
+        elif t in (("deref", ("param", 1)), ("param", 1)):
+            base_ok = len(vals) == nf
+        elif t[0] == "agg" and t[1] == "adt" and t[2] == adt and len(t[4]) == nf:
+            for i, x in enumerate(t[4]):
+                vals.setdefault(i, x)
+            base_ok = True
+        else:
+            base_ok = False
+        if not base_ok:
+            missing = [f["name"] for i, f in enumerate(fb.adt_fields(adt) or []) if i not in vals]
+            last = "fields %s keep their old value" % missing if missing else "*self is %s" % show(t, maxdepth=3)
+            continue_ = (False, last)
+            bad = continue_
+            if eng == "deep":
+                return bad
+            keep = bad
+            continue
+        bad = None
+        for i, x in vals.items():
+            y = _eta(fb, x)
+            if y not in (("field", ("param", 2), i), ("field", ("deref", ("param", 2)), i)):
+                bad = (False, "field %s becomes %s" % ((fb.adt_fields(adt) or [])[i]["name"], show(x, maxdepth=3)))
+                break
+        if bad is None:
+            return True, ""
+        if eng == "deep":
+            return bad
+        keep = bad
+    return locals().get("keep", (False, "not analysable"))
+
+
 def faithful_clones(ctx):
-    """paths of the hand-written `Clone::clone` bodies of local types that are proved to be
-    field-for-field copies: constructing / writing the type there creates no new state"""
+    """paths of the hand-written `Clone::clone` bodies of local types whose `clone()` is proved to
+    be a field-for-field copy: constructing the type there creates no new state.  (Whether the
+    whole impl - an overridden `clone_from` included - is faithful is the obligation
+    clone_fidelity files under C03 / C12 / C13.)"""
     out = set()
     for adt in ctx.fb.adts:
         v = clone_verdict(ctx, adt)
-        if v is not None and v[2] and not v[1].derived():
+        if v is not None and not v[1].derived() and (v[2] or v[3].startswith("clone_from:")):
             out.add(v[0])
     return out
 
@@ -1425,6 +1545,174 @@ def clone_fidelity(ctx, rep, rule, adts, role="clone"):
             rep.ok(rule, adt, role, why, b.loc())
             continue
         rep.check(good, rule, adt, role, why, "a copy of %s is not the same value: %s" % (adt, why), b.loc())
+
+
+# --------------------------------------------------------------------------- hand-written Eq / Ord / Hash
+
+def _impl_body(ctx, adt, trait, method):
+    fb = ctx.fb
+    name = "<%s as %s>::%s" % (adt, trait, method)
+    if name in fb.bodies:
+        return name
+    c = [p_ for p_ in fb.bodies if p_.startswith("<" + adt) and p_.endswith(" as %s>::%s" % (trait, method))]
+    return c[0] if len(c) == 1 else None
+
+
+def _field_of(t, param):
+    """i when t is (a reference to / a copy of) field i of parameter `param`"""
+    t = strip(t)
+    while t[0] in ("ref", "refv", "deref") or (is_call(t) and t[1] in IDENT_CALLS and len(t[2]) == 1):
+        t = strip(t[1] if t[0] in ("ref", "refv", "deref") else t[2][0])
+    if t[0] == "field" and isinstance(t[2], int) and strip(t[1]) in (("param", param), ("deref", ("param", param))):
+        return t[2]
+    return None
+
+
+def cmp_chain(ctx, adt):
+    """the fields a type's `Ord::cmp` compares, in lexicographic order: every field in declaration
+    order for a derive; for a hand-written impl the chain `a.f.cmp(&b.f).then_with(|| a.g.cmp(&b.g))..`
+    (also `then`, and tuples of fields compared as tuples).  None when there is no Ord impl or the
+    body is not such a chain."""
+    fb = ctx.fb
+    nf = len(fb.adt_fields(adt) or [])
+    if "std::cmp::Ord" in fb.derived_traits(adt):
+        return list(range(nf))
+    name = _impl_body(ctx, adt, "std::cmp::Ord", "cmp")
+    if name is None:
+        return None
+
+    def parse(t, se):
+        t = strip(t)
+        if is_call(t) and t[1] in ("std::cmp::Ordering::then_with", "std::cmp::Ordering::then") and len(t[2]) == 2:
+            a = parse(t[2][0], se)
+            if a is None:
+                return None
+            if t[1].endswith("then_with"):
+                cl = strip(t[2][1])
+                v = closure_value(ctx, cl, ())
+                if v is None:
+                    return None
+                v = resolve_locals(se, t[3][1], v) if len(t) > 3 else v
+                b = parse(v, se)
+            else:
+                b = parse(t[2][1], se)
+            return None if b is None else a + b
+        if is_call(t) and len(t[2]) == 2 and (t[1] == "std::cmp::Ord::cmp" or " std::cmp::Ord for " in t[1] and t[1].endswith("::cmp") or t[1].endswith(" as std::cmp::Ord>::cmp")):
+            x, y = strip(t[2][0]), strip(t[2][1])
+            i, j = _field_of(x, 1), _field_of(y, 2)
+            if i is not None and i == j:
+                return [i]
+            # (a.f, a.g).cmp(&(b.f, b.g))
+            while x[0] in ("ref", "refv"):
+                x = strip(x[1])
+            while y[0] in ("ref", "refv"):
+                y = strip(y[1])
+            if x[0] == "agg" and x[1] == "tuple" and y[0] == "agg" and y[1] == "tuple" and len(x[4]) == len(y[4]):
+                out = []
+                for u, v_ in zip(x[4], y[4]):
+                    i, j = _field_of(u, 1), _field_of(v_, 2)
+                    if i is None or i != j:
+                        return None
+                    out.append(i)
+                return out
+        return None
+
+    for eng in ("wrap", "pure"):
+        se = getattr(ctx, eng).run(name)
+        if se is None:
+            continue
+        r = parse(se.ret, se)
+        if r is not None:
+            return r
+    return None
+
+
+def partial_cmp_consistent(ctx, adt):
+    """PartialOrd is derived together with Ord, or is `Some(self.cmp(other))`"""
+    fb = ctx.fb
+    dt = fb.derived_traits(adt)
+    if "std::cmp::PartialOrd" in dt:
+        return "std::cmp::Ord" in dt or None
+    name = _impl_body(ctx, adt, "std::cmp::PartialOrd", "partial_cmp")
+    if name is None:
+        return None
+    se = ctx.wrap.run(name)
+    if se is None:
+        return None
+    r = strip(se.ret)
+    if r[0] == "agg" and r[1] == "adt" and r[2] == "std::option::Option" and r[3] == 1:
+        c = strip(r[4][0])
+        if is_call(c) and c[1].endswith("::cmp") and len(c[2]) == 2 and strip(c[2][0]) == ("param", 1) and strip(c[2][1]) == ("param", 2):
+            return True
+    return None
+
+
+def eq_fields(ctx, adt):
+    """the set of fields whose equality makes two values `==`: all of them for a derive; for a
+    hand-written `eq` the conjunction `a.f == b.f && a.g == b.g ..`.  None when not such a body."""
+    fb = ctx.fb
+    nf = len(fb.adt_fields(adt) or [])
+    if "std::cmp::PartialEq" in fb.derived_traits(adt):
+        return set(range(nf))
+    name = _impl_body(ctx, adt, "std::cmp::PartialEq", "eq")
+    if name is None:
+        return None
+    se = ctx.wrap.run(name)
+    if se is None:
+        return None
+    body = se.body
+    # a conjunction lowers to a chain of switches: every `false` edge ends in the value false,
+    # the value true is reached only when every comparison said true
+    sites = compare_sites(ctx, se)
+    fields = set()
+    for c in sites:
+        if c["op"] != "eq":
+            return None
+        i, j = _field_of(c["args"][0], 1), _field_of(c["args"][1], 2)
+        if i is None or i != j:
+            return None
+        fields.add(i)
+    for (bi, si), (loc, v) in se.assigns.items():
+        v = strip(v)
+        if v[0] == "binop" and v[1] == "Eq":
+            i, j = _field_of(v[2], 1), _field_of(v[3], 2)
+            if i is None or i != j:
+                return None
+            fields.add(i)
+    if not fields:
+        return None
+    # the result is true only on the path where all tests succeeded: verdict signs of each test
+    for c in sites:
+        sg = verdict_signs(ctx, se, c["term"])
+        if sg is None or sg.get("unequal") not in (False,) or sg.get("equal") not in (True, None):
+            return None
+    return fields
+
+
+def hash_fields(ctx, adt):
+    """the fields fed to the hasher, in order (all for a derive), or None"""
+    fb = ctx.fb
+    nf = len(fb.adt_fields(adt) or [])
+    if "std::hash::Hash" in fb.derived_traits(adt):
+        return list(range(nf))
+    name = _impl_body(ctx, adt, "std::hash::Hash", "hash")
+    if name is None:
+        return None
+    se = ctx.wrap.run(name)
+    if se is None or cfg.back_edges(se.body):
+        return None
+    out = []
+    for bb, i in sorted(se.term_info.items()):
+        if i.get("k") != "call":
+            continue
+        if i["name"].endswith("::hash") and len(i["args"]) == 2:
+            f = _field_of(i["args"][0], 1)
+            if f is None:
+                return None
+            out.append(f)
+        elif "Hasher" in i["name"]:
+            return None
+    return out or None
 
 
 # --------------------------------------------------------------------------- verdicts handed on
